@@ -14,14 +14,21 @@ import tempfile
 M = []
 
 
+EQUIVALENT = {
+    'c05-negate-before-abs': 'only differs when {+amount} is combined with negate_amount: true, which the property does not specify',
+    'c05-header-ignored-regex': 'a header line that matches the regex has a non-date first cell and is skipped as a malformed row anyway',
+    'c08-row-dropped-on-rule-error': 'since fix 7863984 no evaluation error reaches the per-row except clause',
+}
+
+
 def mut(name, check, path, old, new, runs=None):
     M.append({'name': name, 'check': check, 'path': path, 'old': old, 'new': new, 'runs': runs})
 
 
 # ---- C15
 mut('c15-move-csv-before-settings', 'C15', 'tally/cli.py',
-    "        # Backup old file\n        if backup and os.path.exists(csv_file):\n            backup_file = _free_backup_path(csv_file)\n            shutil.move(csv_file, backup_file)\n",
-    "        if False:\n            backup_file = None\n")
+    "        print(f\"      Converted {len(csv_rules)} merchant rules to new format\")\n",
+    "        print(f\"      Converted {len(csv_rules)} merchant rules to new format\")\n        if backup and os.path.exists(csv_file):\n            shutil.move(csv_file, _free_backup_path(csv_file))\n")
 mut('c15-rules-written-in-place', 'C15', 'tally/cli.py',
     "    tmp_path = path + '.tmp'\n    with open(tmp_path, 'w', encoding='utf-8') as f:\n        f.write(content)\n    os.replace(tmp_path, path)\n",
     "    with open(path, 'w', encoding='utf-8') as f:\n        f.write(content)\n")
@@ -37,7 +44,7 @@ mut('c20-up-migrates-without-consent', 'C20', 'tally/cli.py',
     "        should_migrate = migrate  # --migrate flag forces it", "        should_migrate = migrate or not sys.stdout.isatty()")
 mut('c20-init-rewrites-settings', 'C20', 'tally/commands/init.py',
     "                with open(settings_path, 'a', encoding='utf-8') as f:\n                    f.write('\\n# Views file (custom spending views)\\n')",
-    "                with open(settings_path, 'w', encoding='utf-8') as f:\n                    f.write(content.strip() + '\\n')\n                    f.write('\\n# Views file (custom spending views)\\n')")
+    "                import yaml as _y\n                with open(settings_path, 'w', encoding='utf-8') as f:\n                    f.write(_y.safe_dump(_y.safe_load(content) or {}, sort_keys=False))\n                    f.write('\\n# Views file (custom spending views)\\n')")
 mut('c20-init-regenerates-merchants', 'C20', 'tally/cli.py',
     "    if not os.path.exists(merchants_path):\n        with open(merchants_path, 'w', encoding='utf-8') as f:",
     "    if not os.path.exists(merchants_path) or os.path.getsize(merchants_path) < 200:\n        with open(merchants_path, 'w', encoding='utf-8') as f:")
@@ -168,7 +175,10 @@ def main():
             print(results[-1], flush=True)
         finally:
             shutil.rmtree(tmp, ignore_errors=True)
-    missed = [r for r in results if r[2] != 'DETECTED']
+    missed = [r for r in results if r[2] != 'DETECTED' and r[0] not in EQUIVALENT]
+    for r in results:
+        if r[2] != 'DETECTED' and r[0] in EQUIVALENT:
+            print('  equivalent under the property (not counted):', r[0], '-', EQUIVALENT[r[0]])
     print('\n%d mutants, %d detected, %d not' % (len(results), len(results) - len(missed), len(missed)))
     for r in missed:
         print('  NOT DETECTED:', r)
